@@ -1,6 +1,6 @@
 ---------------------------- MODULE Trace_Session ----------------------------
 (* C2S judge for C09.  Record: [id, v (vendor class), pt (patch tree), shown (lexed formatter.patch: d,row),
-   paths (cmd_paths keys), sent (CommandList: d,row,timeout,answers), docommit, dofinalize, twostage (the model edits a candidate configuration), drules (deploy rule tree, rules may carry ifctx), ctxs (context of each command path, as [key, value] pairs), judgeParams] *)
+   paths (cmd_paths keys), sent (CommandList: d,row,timeout,answers), docommit, dofinalize, twostage (the model edits a candidate configuration), nocommit (the model writes straight into the running configuration), drules (deploy rule tree, rules may carry ifctx), ctxs (context of each command path, as [key, value] pairs), judgeParams] *)
 EXTENDS DeploySession, TLC, Json, IOUtils
 Recs == ndJsonDeserialize(IOEnv.TRACE_FILE)
 VARIABLE i
@@ -19,6 +19,7 @@ Verdict(r) ==
   ELSE IF \E j \in DOMAIN ex : ex[j] = 0 THEN <<"sent-stream-is-not-the-shown-patch", 0>>
   ELSE IF \E j \in DOMAIN ex : sent[ex[j]].d # 0 \/ sent[ex[j]].row \notin WrapperCmds THEN <<"non-wrapper-command-added", 0>>
   ELSE IF ~r.docommit /\ \E j \in DOMAIN ex : sent[ex[j]].row \in CommitCmds THEN <<"commit-sent-although-disabled", 0>>
+  ELSE IF r.nocommit /\ \E j \in DOMAIN ex : sent[ex[j]].row \in CommitCmds THEN <<"commit-sent-to-a-device-without-candidate-configuration", 0>>
   ELSE IF r.docommit /\ r.twostage /\ bodyPos # {} /\ ~CommitSent(sent, ex, IF bodyPos = {} THEN 0 ELSE CHOOSE k \in bodyPos : \A j \in bodyPos : j <= k)
        THEN <<"commit-missing-although-enabled", 0>>
   ELSE IF r.judgeParams /\ \E k \in bodyPos :
